@@ -13,6 +13,7 @@ EXPLANATION = ('Structural necessary conditions of C03: unfinished-dependency co
                'can see whether an existing dependency failed.')
 NOT_DECIDED = ['that collect_recursive_consumers computes the full transitive closure (value-level worklist; unit-tested only)',
                'behaviour over all DAG shapes and restart points']
+RELATED = {'C12': ['R12.2', 'R12.1~^TasksAborted']}
 ASSUMPTIONS = []
 OPTION = 'core::option::Option'
 RESTORE = HQ + 'restore::'
